@@ -126,6 +126,7 @@ PROPS['C14']={
  'assumptions':PIPE_ASSUME+UNIT_ASSUME+['out of reach: the JSON text parsers (serde_json) on arbitrary bytes, derive-generated visitors, stack exhaustion, allocation failure; non-termination is excluded structurally (all loops run over finite collections), not solved'],
  'obligations':[
   {'name':'keyid_prefix','module':'harness.C14','cls':'KeyIdPrefix','quick':{},'thorough':{},'validate':{'quick':4,'thorough':8}},
+  {'name':'link_file_names','module':'harness.C14','cls':'LinkFileNames','quick':{},'thorough':{},'validate':{'quick':8,'thorough':24}},
   {'name':'rules_non_normal','module':'harness.C14','cls':'RulesNonNormal','quick':{},'thorough':{}},
   {'name':'importers','module':'harness.C14','cls':'Importers','quick':{},'thorough':{}},
   {'name':'pae_prefix','module':'harness.C20','cls':'UnpackTotal','quick':{'n':6,'shape':'prefix'},'thorough':{'n':9,'shape':'prefix'}},
@@ -141,6 +142,9 @@ PROPS['C17']={
  'bounds_statement':'for every wire type of the crate (rule, command, path, key id/type, hash value, byproducts incl. the flattened map, step, inspection, signature, public key, link, layout, signed block, untagged wrapper): the serialised form of a value with free string/number leaves is decoded on four channels (borrowed text, escaped text, reader, tree); acceptance and value must coincide.',
  'assumptions':WIRE_ASSUME,
  'obligations':[{'name':w,'module':'harness.wire','cls':'RoundTrip','quick':{'what':w,'prop':'C17','nbytes':1},'thorough':{'what':w,'prop':'C17','nbytes':2},'validate':{'quick':6,'thorough':24}} for w in WIRE_TYPES_Q]}
+PROPS['C17']['obligations']+=[{'name':'adversarial_'+w,'module':'harness.C14','cls':'DecodeAdversarial','quick':{'what':w,'nbytes':1,'prop':'C17'},'thorough':{'what':w,'nbytes':2,'prop':'C17'},'validate':{'quick':6,'thorough':24},
+   **({'tier_only':'thorough'} if w in ('layout','statement_naive','metablock_layout','statement_slsa1','predicate_slsa2') else {})} for w in ADV_TYPES]
+PROPS['C17']['bounds_statement']+='  Also documents that are NOT the output of the serialiser: every single-node mutation of a valid document of each type (see C14 decode obligations) must be accepted or rejected alike on all four channels and decode to equal values.'
 PROPS['C16']={
  'bounds_statement':'same pipeline as C17, asserting serialise -> parse = identity (value equality through the crate\'s own PartialEq-equivalent structure) for every wire type incl. every rule form with keyword-like operands (IN, WITH, FROM, MATCH, trailing-slash prefixes), optional fields present/absent, empty collections, key table self-consistency; byte-identical re-serialisation follows from value equality because serialisation is a function of the value.',
  'assumptions':WIRE_ASSUME+['Unicode beyond ASCII in free strings is covered by fixed samples only; pretty printing is serde_json\'s'],
@@ -167,11 +171,12 @@ PROPS['C18']={
  ]}
 
 PROPS['C12']={
- 'bounds_statement':'(a,b) PublicKey::new / from_ed25519 / from_spki / from_pem_spki from MIR (incl. shim_public_key, the Serialize impls, canonical JSON, write_spki through the DER writer model, PEM) for ed25519 (3 free key bytes), ECDSA P-256 (2 free bytes) and the RSA fixture, three hash-algorithm lists: every path hashes exactly the reference canonical description; (c) from_spki / as_spki on the RFC 8410, RFC 3279 and RFC 5480 SubjectPublicKeyInfo templates with free key bytes, plus an ed25519 template with 6 free DER header bytes (panic-freedom); (d) Layout::try_into on every way of filing two keys under own / other / unrelated identifiers.',
+ 'bounds_statement':'(a,b) PublicKey::new / from_ed25519 / from_spki / from_pem_spki from MIR (incl. shim_public_key, the Serialize impls, canonical JSON, write_spki through the DER writer model, PEM) for ed25519 (3 free key bytes), ECDSA P-256 (2 free bytes) and the RSA fixture, three hash-algorithm lists: every path hashes exactly the reference canonical description; (c) from_spki / as_spki on the RFC 8410, RFC 3279 and RFC 5480 SubjectPublicKeyInfo templates with free key bytes, plus an ed25519 template with 6 free DER header bytes (panic-freedom); (d) Layout::try_into on every way of filing two keys under own / other / unrelated identifiers; (e) key documents and layout key tables decoded from JSON with every kind of caller-chosen `keyid` member: the identifier of a decoded key is its intrinsic one, a table never aliases.',
  'assumptions':UNIT_ASSUME+SIGNED_ASSUME[:1]+['untrusted / derp (DER reader and writer) modelled from derp 0.0.15\'s source; pem encode/parse modelled for concrete bytes (base64 of symbolic bytes is out of reach, hence RSA is decided on the fixture key only); SHA-256 is an injective function of its input (concrete inputs use the real SHA-256)',
                  'JSON text round trip of keys is C16/C17 (wire_pubkey)'],
  'obligations':[
    {'name':'key_id','module':'harness.C12','cls':'KeyIds','quick':{},'thorough':{},'validate':{'quick':9,'thorough':9}},
    {'name':'spki','module':'harness.C12','cls':'Spki','quick':{},'thorough':{},'validate':{'quick':4,'thorough':4}},
    {'name':'key_table','module':'harness.C12','cls':'KeyTable','quick':{},'thorough':{},'validate':{'quick':6,'thorough':6}},
+   {'name':'key_json','module':'harness.C12','cls':'KeyJson','quick':{},'thorough':{},'validate':{'quick':12,'thorough':40}},
  ]}
